@@ -603,9 +603,18 @@ class unyt_array(np.ndarray):
             if dtype is None:
                 dtype = input_array.dtype
             obj = input_array.view(type=cls, dtype=dtype)
+            if registry is not None and registry is not input_units.registry:
+                # bind a unit of our own to the requested registry: the caller's
+                # Unit object (possibly one exported by the unyt namespace or
+                # memoised by another registry) must not be re-bound
+                input_units = Unit(
+                    input_units.expr,
+                    input_units.base_value,
+                    input_units.base_offset,
+                    input_units.dimensions,
+                    registry,
+                )
             obj.units = input_units
-            if registry is not None:
-                obj.units.registry = registry
             obj.name = name
             return obj
         if isinstance(input_array, unyt_array):
